@@ -89,7 +89,9 @@ def _normalise(edges, inits, descs):
     return out, inits
 
 
-def run_family(prop, invs, props, tier, seed, focus=None, signature_prefix="family:", then_roundtrip=False):
+def run_family(prop, invs, props, tier, seed, focus=None, signature_prefix="family:", then_roundtrip=False, then=None):
+    then = then or ("roundtrip" if then_roundtrip else None)
+    then_roundtrip = then is not None
     import time
 
     cinco = common.import_repo()
@@ -140,7 +142,7 @@ def run_family(prop, invs, props, tier, seed, focus=None, signature_prefix="fami
     with open(cfgx, "a") as fp:
         fp.write("CONSTRAINT SidSample\n")
     if then_roundtrip:
-        text = open(cfgx).read().replace("NEXT Next", "NEXT NextThenRoundTrip")
+        text = open(cfgx).read().replace("NEXT Next", "NEXT " + {"roundtrip": "NextThenRoundTrip", "validate": "NextThenValidate", "reset": "NextThenReset"}[then])
         with open(cfgx, "w") as fp:
             fp.write(text)
         env["FAM_FMT"] = ["json", "yaml", "bson", "xml", "pickle"][seed % 5]
